@@ -771,7 +771,8 @@ class VarsManager(object):
                     continue
                 shifted.append(p_i)
                 p_i.assign_add(np.pi)
-        p.assign(self._std_polar_angle(p))
+        if p < -np.pi or p >= np.pi:
+            p.assign(self._std_polar_angle(p))
 
     def std_polar_all(self):  # std polar expression: r>0, -pi<p<pi
         """
